@@ -3,6 +3,7 @@ use vsim_core::{Batch, Prop, Report, Tape, World};
 vsim_core::interpose!();
 
 mod cluster;
+mod coord;
 mod storage;
 
 struct W6;
@@ -48,10 +49,34 @@ impl World for W6 {
                 stub: vec!["the network (simulated transport: latency, loss, partitions, refusal)", "clients", "bootstrap_with_storage is transcribed (same Config, same initialise-on-node-1 rule) because the store must be wrapped by the observing delegate"],
                 assumptions: vec!["network decisions are drawn from a PRNG seeded by one tape value (they shrink as a block, not individually)", "node crash = Raft::shutdown at an arbitrary instant + restart on the same RocksDB directory; crashes inside a storage operation are C36's subject", "bounded liveness (a write commits within 30 simulated seconds after the last fault) is measured as a probe, not asserted"],
             },
+            Prop {
+                id: "C32",
+                batches: vec![
+                    Batch { name: "sequential-core", quick: 1_500, thorough: 60_000, faulty: false },
+                    Batch { name: "sequential-membership", quick: 1_000, thorough: 40_000, faulty: false },
+                    Batch { name: "interleaved-core", quick: 3_000, thorough: 150_000, faulty: true },
+                    Batch { name: "interleaved-all", quick: 2_500, thorough: 120_000, faulty: true },
+                    Batch { name: "reply-loss", quick: 1_000, thorough: 40_000, faulty: true },
+                ],
+                rule: "one run = a standalone real Coordinator behind the real cluster_routes handlers with 2-3 simulated workers and 4-14 client requests (deploy group, teardown, manual migrate, drain, rebalance, register, deregister, heartbeat, health-loop tick) started at tape-chosen instants on a paused tokio clock; each request is its own task and yields at every lock acquisition and every worker call, so plan/execute/commit phases interleave as the seeded runtime and the tape-drawn worker latencies (0-200 ms) dictate; per worker call the outcome is success, HTTP 500, timeout or (reply-loss batch) executed-but-reply-lost. At quiescence: every Running placement names a registered worker; each worker's assigned_pipelines equals, as a multiset, the Running placements on it; pipelines_running equals their number (not judged in the reply-loss batch). The sequential batch spaces requests a minute apart with fault-free workers. Non-trivial = >= 3 requests answered 2xx; distinct = distinct decoded-trace hash (the trace is the (request, phase) interleaving).",
+                real: vec!["varpulis_cluster::coordinator::Coordinator (plan/execute/commit deploy, teardown, migrate, drain, rebalance, failure handling, reconcile)", "varpulis_cluster::api::cluster_routes handlers incl. their lock scopes, rbac filter", "placement strategies, health_sweep", "HTTP client calls over the H3 stand-in for reqwest"],
+                stub: vec!["workers (SimWorker: keeps its own pipeline set, answers truthfully unless a fault says otherwise)", "clients", "the health-loop body of varpulis-cli main.rs (transcribed: same public methods, same order, one write lock)"],
+                assumptions: vec!["interleavings are those a single-threaded seeded tokio runtime produces given tape-drawn start instants and latencies"],
+            },
+            Prop {
+                id: "C33",
+                batches: vec![Batch { name: "timing", quick: 6_000, thorough: 250_000, faulty: true }],
+                rule: "one run = a standalone real Coordinator (heartbeat timeout 3-15 s, worker capacity 1-3) and 1-4 simulated workers driven sequentially through the real handlers by 6-40 events at tape-chosen virtual instants: time advances (incl. exactly timeout and timeout+-1 ms), heartbeats, health sweeps, deploys with and without worker affinity, manual migrations, drains, registrations and deregistrations; all worker calls succeed so only timing is in play. A reference worker table is stepped alongside: a sweep marks a Ready worker unhealthy iff its last heartbeat is older than the timeout (never earlier, never later), a heartbeat restores it, no deploy/migration/drain target is unhealthy, draining, full or deregistered at plan time, a pinned pipeline goes to its pin whenever the pin is available; the coordinator's worker statuses equal the table after every event. Non-trivial = a sweep marked a worker or >= 2 deploys; distinct = distinct decoded-trace hash.",
+                real: vec!["Coordinator::{heartbeat, health_sweep, plan_deploy_group, migrate, drain_worker}, WorkerNode::is_available, RoundRobin/LeastLoaded placement", "cluster_routes handlers", "std::time::Instant via the link-level clock seam coupled to the paused tokio clock"],
+                stub: vec!["workers (SimWorker, always succeed)", "clients"],
+                assumptions: vec!["requests are sequential in this property: plan time = request time"],
+            },
         ]
     }
     fn run(&self, prop: &str, batch: &str, tape: &mut Tape, rep: &mut Report) {
         match prop {
+            "C32" => coord::run_c32(batch, tape, rep),
+            "C33" => coord::run_c33(batch, tape, rep),
             "C37" => cluster::run_c37(batch, tape, rep),
             "C35" if batch == "conformance-suite" => storage::run_conformance(tape, rep),
             "C35" => storage::run_c35(batch, tape, rep),
